@@ -27,7 +27,7 @@ ASSUMPTIONS = [
 ]
 NOT_REACHED = ["STA/LTA lengths longer than the window (refused with IndexError)", "more than 40 windows"]
 BUDGET = {"quick": dict(cases=1000, seconds=60, shards=4),
-          "thorough": dict(cases=60000, seconds=600, shards=16)}
+          "thorough": dict(cases=240000, seconds=600, shards=16)}
 REQUIRED = ["mon:returned-are-same-objects-in-order", "mon:clearly-keep-kept", "mon:clearly-reject-rejected",
             "mon:masks-equal-selection", "mon:alone-equals-in-list", "mon:rescaling-invariant", "mon:widening-monotone",
             "mon:components-conjunctive", "mon:maximum-value-criterion", "mon:recordings-unchanged"]
